@@ -289,6 +289,18 @@ def oracle_flags(cases, impl):
                     if passes[j] != passes[0]:
                         out.append(fail("C09", info, line, "adjoint pass %d differs from pass 1" % (j + 1), "repeat"))
                         break
+                # ... and executable: no requirement of the reference executor fails after the first EndReverse
+                st, _ = mon_of(tr)
+                if st not in (None, "ok") and "ER" in acts:
+                    first_er = acts.index("ER")
+                    try:
+                        m1, _ = rerun_monitor(info, actions_of(tr), lenient=True)
+                        later = [(e, i) for e, i in m1.errors if i > first_er]
+                    except Exception:  # noqa
+                        later = []
+                    if later:
+                        out.append(fail("C09", info, line, "a repeated adjoint calculation is not executable: %s at action %d (first EndReverse is action %d)"
+                                        % (later[0][0], later[0][1], first_er), "repeat_not_executable"))
     return out
 
 
